@@ -21,7 +21,9 @@ macro_rules! h {
         #[kani::stub(alloc::alloc::dealloc_nonnull, dealloc_stub)]
         #[kani::stub(alloc::alloc::realloc_nonnull, realloc_stub)]
         fn $name() {
-            $body
+            crate::ghost::arm();
+            $body;
+            kani::cover!(true, "end of harness reached");
         }
     };
 }
@@ -269,6 +271,7 @@ h!(q_header_erasure, {
 #[kani::stub(std::alloc::alloc, alloc_stub)]
 #[kani::stub(alloc::alloc::dealloc_nonnull, dealloc_stub)]
 fn qp_zst_elements_iter() {
+    crate::ghost::arm();
     let hv: u8 = kani::any();
     kani::cover!(true, "reached the constructor");
     let a = Arc::from_header_and_iter(hv, [Zst, Zst].iter().copied());
@@ -279,6 +282,7 @@ fn qp_zst_elements_iter() {
 #[kani::stub(std::alloc::alloc, alloc_stub)]
 #[kani::stub(alloc::alloc::dealloc_nonnull, dealloc_stub)]
 fn qp_zst_elements_slice() {
+    crate::ghost::arm();
     let hv: u8 = kani::any();
     kani::cover!(true, "reached the constructor");
     let a = Arc::from_header_and_slice(hv, &[Zst, Zst, Zst][..]);
@@ -289,6 +293,7 @@ fn qp_zst_elements_slice() {
 #[kani::stub(std::alloc::alloc, alloc_stub)]
 #[kani::stub(alloc::alloc::dealloc_nonnull, dealloc_stub)]
 fn qp_zst_elements_vec() {
+    crate::ghost::arm();
     let hv: u8 = kani::any();
     let mut v = Vec::new();
     v.push(Zst);
